@@ -5,7 +5,7 @@ import json, subprocess
 
 HOOK_COMMITS = ["0c039eb"]
 
-POOL_NOTE = ("Trusted base: tokio current_thread scheduler with paused clock (spawned pool tasks run only at "
+POOL_NOTE = ("Thorough tier adds a coverage-guided libFuzzer leg (cargo-fuzz target fz_pool: bytes decoded into a pool history, same interpreter and monitors). Trusted base: tokio current_thread scheduler with paused clock (spawned pool tasks run only at "
              "explicit Bg steps); the scripted transport/protocol/connection collaborators, whose connection "
              "models HttpConnection readiness (is_open = open && (ready || multiplexed)); ground truth kept by the "
              "harness only. Liveness is bounded: 'eventually' = by the end of a deterministic drain.")
@@ -25,11 +25,11 @@ CHECKS = {
         note=POOL_NOTE + " Rule preconditions are lower bounds (ambiguity can hide violations, never invent them); one documented exclusion for rule B (DESIGN §5 C04)."),
     "C05": dict(engine="poolsim", ref="§5 C05, §4 E1",
         technique="stateful property-based testing with peer-close faults injected at every stage; hand-off invariant against recorded close/entry steps; small real-time leg for idle expiry",
-        text="At every hand-off of a previously pooled connection its close step is compared with the request's issue step and the connection's last pool-entry step; the expiry leg sleeps in real time on both sides of a short idle_timeout with one-sided assertions.",
+        text="At every hand-off of a previously pooled connection its close step is compared with the request's issue step and the connection's last pool-entry step; two expiry legs (random histories and structured scenarios with several idle connections of different ages, one of them closed) sleep in real time on both sides of a 25 ms idle_timeout with one-sided assertions.",
         note=POOL_NOTE + " Idle expiry uses std::time::Instant: only coarse one-sided real-time assertions."),
     "C06": dict(engine="poolsim", ref="§5 C06, §4 E1",
         technique="stateful property-based testing over six URIs / four origins differing in scheme, port, host and letter case; hand-off invariant on (scheme, authority)",
-        text="At every hand-off the origin the connection was dialed for equals the origin of the request's URI, with waiters and idle connections alive for several origins at once.",
+        text="At every hand-off the origin the connection was dialed for equals the origin of the request's URI, with waiters and idle connections alive for several origins at once; a many-origins leg first sweeps 40-700 distinct origins (so that key/token bookkeeping is exercised at scale) and then issues requests to early and late origins.",
         note=POOL_NOTE),
     "C14": dict(engine="poolsim", ref="§5 C14, §4 E1",
         technique="stateful property-based testing; obligation tracking over generated schedules (release vs first poll vs background hand-back vs dial completion), both continue_after_preemption settings",
@@ -75,9 +75,9 @@ CHECKS.update({
         technique="model-based property testing: generated read/write/vectored-write/flush/shutdown programs over a scripted faulty inner stream and over connected stream pairs, compared with a reference FIFO",
         text="TokioIo in both directions and round trip, Rewind with arbitrary prefix, client/server Stream and TlsBraid::NoTls are driven over an inner stream that returns short transfers, Pending, errors and EOF at generated points; every outward result must match what the inner returned in that call and the delivered/accepted byte streams must equal the reference FIFO. The same programs run over in-process duplex pairs (deterministic) and real TCP/Unix pairs wrapped in Braid + Stream.",
         note="Trusted base: wrapper adapters are pass-through (no buffering); real-socket legs use 2 s real-time guards whose expiry is inconclusive, never a violation. TLS record layers are exercised end to end in C12/C01, not here."),
-    "C19": dict(engine="timeout+poolsim", ref="§5 C19, §4 E9/E1",
+    "C19": dict(engine="timeout+poolsim+netsim", ref="§5 C19, §4 E9/E1/E2",
         technique="property-based testing in virtual time: exhaustive grid plus random (duration, inner completion, first-poll delay) cases for the Timeout layer; stateful pool histories with virtual-time advances so deadlines fire at every stage of a pooled request",
-        text="Unit leg: result value, resolution instant (never later than the deadline), inner future dropped at resolution and never polled again. Pool leg: requests wrapped in the real Timeout inside poolsim histories; a request polled at or after its deadline must resolve, a timeout never fires early, no connection is handed to a request that already ended, and after the drain a probe to every origin is served.",
+        text="Unit leg: result value, resolution instant (never later than the deadline), inner future dropped at resolution and never polled again. Pool leg: requests wrapped in the real Timeout inside poolsim histories; a request polled at or after its deadline must resolve, a timeout never fires early, no connection is handed to a request that already ended, and after the drain a probe to every origin is served. End-to-end leg: the real client stack with with_timeout against slow handlers in netsim (timeouts fire exactly at the deadline, completed requests are intact, a fresh client is served afterwards).",
         note="Trusted base: tokio paused clock; poolsim collaborators (see C02). When the first poll happens after both the deadline and the inner completion either answer is accepted."),
 })
 
@@ -106,10 +106,10 @@ CHECKS.update({
         technique="virtual-time schedule generation: the graceful-shutdown signal instant is swept relative to accept, protocol detection, request transfer, handler execution and response transfer; history invariants over the handler log, the executor-wrapped connection tasks and the client results",
         text="Serving future resolves Ok exactly at the signal; every request whose handler started before the signal receives its complete correct response; every connection task (including idle keep-alive connections and connections still in protocol detection) finishes while the clients keep their ends open; nothing is accepted or served on a connection accepted after the signal.",
         note=NET_NOTE + " Idle holders are only placed where hyper itself closes them on graceful shutdown (auto-detecting and idle HTTP/1 connections)."),
-    "C09": dict(engine="netsim", ref="§5 C09, §4 E2",
+    "C09": dict(engine="netsim+socksrv", ref="§5 C09, §4 E2, §10.3",
         technique="fault-sequence generation in virtual time: per-connection faults (cancelled connect, disconnects, garbage, truncated head/body, mid-response disconnect, partial preface, handler errors) interleaved with well-behaved requests; oracle = serving futures still pending, probe client served, other requests correct",
         text="After 1-5 generated faults per case the serving future of every server must still be pending, a fresh well-behaved probe client must be served by every server, and every well-behaved request on other connections must have completed with its correct response.",
-        note=NET_NOTE + " TLS handshake faults are exercised in the C12 engine (tlswire); OS-level accept errors are not reachable."),
+        note=NET_NOTE + " A real-socket leg (engine socksrv) repeats the fault/probe scheme on TCP and Unix acceptors in real time (reset or close before accept, garbage, truncated head/body); a probe that merely times out there is inconclusive. TLS handshake faults are exercised at the client side in C12 (tlswire); OS-level accept() errors are not reachable."),
 })
 
 NOT_YET = {
